@@ -232,3 +232,18 @@ claim("C25",
       category="other",
       technique="contract-based: pre/postconditions + data-structure invariant on the mechanically extracted atomic "
                 "sections of the real method (pyvc + z3), structural obligations on its AST")
+
+claim("C30",
+      "The get-or-create section of BasicRuntime._maybe_acquire_max_concurrent_runs (the await-free statements before "
+      "`async with sem`, extracted mechanically from the real source) is under contract and discharged: the semaphore a "
+      "run is gated by is the one stored under its workflow instance - the existing one if there is one (table "
+      "untouched), otherwise a new one with exactly num_concurrent_runs permits - and entries of other instances are "
+      "untouched. On the AST: the limited branch's block runs inside `async with sem`, nothing awaits between the "
+      "start of that branch and the `async with`, and run_workflow awaits the run function inside the gate.",
+      "asyncio.Semaphore's bound and fairness are assumed (so 'every started run eventually executes' is not decided); "
+      "the table is a WeakValueDictionary - that an entry cannot vanish while a run of the instance is between the "
+      "section and the end of its `async with` is argued in the contract notes, not modelled; instances are told "
+      "apart by id().",
+      category="other",
+      technique="contract-based: postconditions on the mechanically extracted atomic section (pyvc + z3), structural "
+                "obligations on the AST of the real methods")
